@@ -177,7 +177,10 @@ def execute(prog, model=None):
             seams.record_calls(KNNSubgraph, "calculate_pdf", log, None, "calculate_pdf"):
         m = K.fit_program(prog, model)
     for e in log:
-        calls.append((e["call"], int(e["args"][0])))
+        # the neighbourhood size is the first positional argument, or - if a caller names it - the
+        # keyword `k` / `n_neighbours` (create_arcs / calculate_pdf)
+        kv = e["args"][0] if e["args"] else e["kwargs"].get("k", e["kwargs"].get("n_neighbours"))
+        calls.append((e["call"], int(kv)))
     if not unsup:
         # KNN evaluates candidates in the order of its create_arcs calls
         ks = [c[1] for c in calls if c[0] == "create_arcs"]
